@@ -124,6 +124,7 @@ package heap
 //@   ghostinit h.indexChanged.g := lambda j int :: j
 //@   ensures wfH(h) && len(h.a) == old(len(h.a)) + 1 && h.gen > old(h.gen) && h.lessFn == old(h.lessFn) && h.indexChanged == old(h.indexChanged)
 //@   ensures arr(h.a) == old(arr(h.a)) || fresh(h.a)
+//@   ensures old(cap(h.a)) == old(len(h.a)) ==> fresh(h.a)
 //@   ensures mapsTo(h) && h.indexChanged.bn == old(len(h.a)) + 1 && h.indexChanged.gone == -1 && h.indexChanged.base[old(len(h.a))] == item
 //@   ensures forall j int {h.indexChanged.base[j]} :: 0 <= j && j < old(len(h.a)) ==> h.indexChanged.base[j] == old(h.a[j])
 //@   ensures C15: tiH(h)
